@@ -83,8 +83,8 @@ def constructor_rules(ctx, rule):
 
 
 
-def run(ctx):
-    rule = "R-C20.V.poplar1"
+def validity_rules(ctx, rule="R-C20.V.poplar1"):
+    """Poplar1::is_agg_param_valid has the specification's shape (shared with C03)"""
     try:
         f = ctx.fn(rule, name="is_agg_param_valid", trait="Aggregator", self_adt=P1)
         g = ctx.guards(f)
@@ -185,6 +185,9 @@ def run(ctx):
         pass
     ctx.floor(rule, 6)
 
+
+def run(ctx):
+    validity_rules(ctx)
     rule = "R-C20.V.single-use"
     for adt in ("vdaf::prio3::Prio3", "vdaf::prio2::Prio2"):
         try:
